@@ -1,0 +1,88 @@
+//go:build verif
+// +build verif
+
+package chained_bft
+
+import (
+	xuperp2p "github.com/xuperchain/xupercore/protos"
+)
+
+// Export shim for the verification harness (build tag `verif` only; add-only).
+// Synchronous wrappers around the package-private mutators of QCPendingTree and a
+// structural dump of the pending tree, the orphan forest and the four markers.
+
+// VerifUpdateQcStatus calls the package-private updateQcStatus.
+func (t *QCPendingTree) VerifUpdateQcStatus(node *ProposalNode) error { return t.updateQcStatus(node) }
+
+// VerifUpdateHighQC calls the package-private updateHighQC.
+func (t *QCPendingTree) VerifUpdateHighQC(id []byte) { t.updateHighQC(id) }
+
+// VerifEnforceUpdateHighQC calls the package-private enforceUpdateHighQC.
+func (t *QCPendingTree) VerifEnforceUpdateHighQC(id []byte) error { return t.enforceUpdateHighQC(id) }
+
+// VerifUpdateCommit calls the package-private updateCommit.
+func (t *QCPendingTree) VerifUpdateCommit(id []byte) { t.updateCommit(id) }
+
+// VerifInsert calls the package-private insert.
+func (t *QCPendingTree) VerifInsert(node *ProposalNode) error { return t.insert(node) }
+
+// VerifInsertOrphan calls the package-private insertOrphan.
+func (t *QCPendingTree) VerifInsertOrphan(node *ProposalNode) error { return t.insertOrphan(node) }
+
+// VerifAdoptOrphans calls the package-private adoptOrphans.
+func (t *QCPendingTree) VerifAdoptOrphans(node *ProposalNode) error { return t.adoptOrphans(node) }
+
+// VerifOrphanRoots returns the roots of the orphan forest in list order.
+func (t *QCPendingTree) VerifOrphanRoots() []*ProposalNode {
+	var res []*ProposalNode
+	for e := t.OrphanList.Front(); e != nil; e = e.Next() {
+		if n, ok := e.Value.(*ProposalNode); ok {
+			res = append(res, n)
+		}
+	}
+	return res
+}
+
+// VerifDumpNode is one node object met by the dump walk.
+type VerifDumpNode struct {
+	Node   *ProposalNode
+	Parent *ProposalNode // the node whose Sons slice holds Node; nil for Root / orphan roots
+	Orphan bool          // met below an orphan root
+	Depth  int
+}
+
+// VerifDump walks Root and every orphan root in preorder (the order of DFSQuery). The walk
+// follows Sons pointers only; limit bounds the number of visited node objects so that a
+// structure that is no longer a forest (a cycle) still terminates.
+func (t *QCPendingTree) VerifDump(limit int) []VerifDumpNode {
+	var res []VerifDumpNode
+	var walk func(n, parent *ProposalNode, orphan bool, depth int)
+	walk = func(n, parent *ProposalNode, orphan bool, depth int) {
+		if n == nil || len(res) >= limit {
+			return
+		}
+		res = append(res, VerifDumpNode{Node: n, Parent: parent, Orphan: orphan, Depth: depth})
+		for _, s := range n.Sons {
+			walk(s, n, orphan, depth+1)
+		}
+	}
+	walk(t.Root, nil, false, 0)
+	for _, r := range t.VerifOrphanRoots() {
+		walk(r, nil, true, 0)
+	}
+	return res
+}
+
+// VerifHandleReceivedVoteMsg / VerifHandleReceivedProposal run the package-private message
+// handlers synchronously (the production path spawns one goroutine per message).
+func (s *Smr) VerifHandleReceivedVoteMsg(msg *xuperp2p.XuperMessage) error {
+	return s.handleReceivedVoteMsg(msg)
+}
+
+func (s *Smr) VerifHandleReceivedProposal(msg *xuperp2p.XuperMessage) { s.handleReceivedProposal(msg) }
+
+// VerifQcTree exposes the pending tree of an Smr.
+func (s *Smr) VerifQcTree() *QCPendingTree { return s.qcTree }
+
+// VerifLedgerState exposes the ledger-state view of an Smr.
+func (s *Smr) VerifLedgerState() int64 { return s.ledgerState }
